@@ -76,7 +76,7 @@ LAYOUTS = ("c", "fortran", "c", "view", "transposed-view", "readonly", "c")
 
 def solver_kwargs(tid, span):
     """Documented pass-through keyword arguments of the update (handed on to scipy's LSODA): none / tighter tolerances /
-    an explicit first step / a step-size ceiling / a regime callback that always returns the mineral's own regime.
+    an explicit first step / a step-size ceiling / a floor / none after a coarse preview call of another mineral.
     Each of them leaves the statement untouched: the returned F still solves dF/dt = L.F to the stated tolerance."""
     k = tid % 6
     if k == 1:
@@ -119,6 +119,13 @@ def run_case(pd, case, cfg, parts, asm, ev_out, tid, use_update_all=False, rate=
         for k in range(parts):
             s0, s1 = edges[k], edges[k + 1]
             e = dict(id=len(ev_out), ev="Update", tid=tid, ok=True)
+            if tid % 6 == 5 and k == 0:
+                # call history: a coarse "preview" update of a throwaway mineral with loose solver options comes
+                # first (its result is discarded); the judged call that follows relies on the defaults
+                try:
+                    pd.Mineral(phase=asm[0][0], fabric=0 if asm[0][0] == 0 else 5, regime=4, n_grains=4, seed=1).update_orientations(params, np.eye(3), getL, (t_abs + s0, t_abs + s1, getx), rtol=1e-1, atol=1e-1)
+                except Exception:  # noqa: BLE001 - the preview is not judged
+                    pass
             try:
                 if use_update_all:
                     F = pd.update_all(minerals, params, F, getL, (t_abs + s0, t_abs + s1, getx), **solver_kwargs(tid, s1 - s0))
